@@ -272,3 +272,38 @@ class MockerOnRequest:
         return (tlen() == b + 1 and ev_kind(b) == 'call:temp_original' and same(ev_callee(b), self._patcher)
                 and len(ev_args(b)) == 3 and same(ev_args(b)[0], origin_self) and same(ev_args(b)[1], request_text)
                 and same(ev_args(b)[2], is_notification) and dict_eq(ev_kwargs(b), kwargs) and same(result, ev_value(b)))
+
+
+@contract('pjrpc.client.integrations.pytest:PjRpcMocker.remove', props=['C20'])
+class MockerRemove:
+    types = {'self': 'pjrpc.client.integrations.pytest:PjRpcMocker', 'endpoint': 'str', 'method_name': 'opt:str',
+             'version': 'str'}
+    raises_only = ('KeyError',)
+    modifies = ('$containers',)
+    cross_check = False
+
+    def requires_separate_maps(self, endpoint, method_name, version):
+        return not same(self._matches, self._calls) and not same(member(self._matches, endpoint), self._matches)
+
+    def raises_KeyError_iff(self, endpoint, method_name, version):
+        # only what is registered can be removed
+        if method_name is None:
+            return is_absent(member(self._matches, endpoint))
+        return is_absent(patches(self, endpoint, version, method_name))
+
+    def ensures_removed(self, endpoint, method_name, version, result):
+        # C20: afterwards the method (or the whole endpoint) is not patched any more; what was removed is handed back
+        if method_name is None:
+            return is_absent(member(self._matches, endpoint)) and same(result, old(member(self._matches, endpoint)))
+        return (is_absent(patches(self, endpoint, version, method_name))
+                and same(result, old(patches(self, endpoint, version, method_name))))
+
+    def ensures_others_untouched(self, endpoint, method_name, version, result):
+        # whole-view: every other endpoint keeps its map; when one method is removed the other methods of the endpoint
+        # keep their queues (an endpoint whose last method was removed is dropped altogether)
+        if not dict_same_except(self._matches, endpoint):
+            return False
+        if method_name is None:
+            return True
+        ep0 = old(member(self._matches, endpoint))
+        return dict_same_except(ep0, (version, method_name))
